@@ -257,6 +257,12 @@ VARIANTS = {
     "cn-B3-single-keeps-start-flag": ("frame.rs", rep(FR, "                    let start_frame_flag = true;\n", ""), "src_fromCan_eq"),
     "cn-B4-multi-bit-25": ("frame.rs", rep(FR, "let multi_frame_flag = ((id >> 26) & 0x0001) != 0;", "let multi_frame_flag = ((id >> 25) & 0x0001) != 0;"), "src_fromCan_eq"),
     "cn-B5-id-from-second-byte": ("frame.rs", rep(FR, "FrameId::LastFrameId((frame_id_nibble << 8) | data[0] as u16)", "FrameId::LastFrameId((frame_id_nibble << 8) | data[1] as u16)"), "src_fromCan_eq"),
+    # ---- frame.rs: to_bxcan_frame
+    "ce-R1-address-unmasked-first": ("frame.rs", rep(FR, "        id |= (self.not_error_flag as u32) << 28;\n        id |= (self.start_frame_flag as u32) << 27;", "        id |= (self.start_frame_flag as u32) << 27;\n        id |= (self.not_error_flag as u32) << 28;"), None),
+    "ce-B1-start-bit-26": ("frame.rs", rep(FR, "id |= (self.start_frame_flag as u32) << 27;", "id |= (self.start_frame_flag as u32) << 26;"), "src_toCan_eq"),
+    "ce-B2-nibble-shift-12": ("frame.rs", rep(FR, "FrameId::CurrentFrameId(frame_id) => id |= ((frame_id & 0x0f00) as u32 >> 8) << 16,", "FrameId::CurrentFrameId(frame_id) => id |= ((frame_id & 0x0f00) as u32 >> 8) << 12,"), "src_toCan_eq"),
+    "ce-B3-address-low-byte-only": ("frame.rs", rep(FR, "id |= (self.device_address & 0xffff) as u32;", "id |= (self.device_address & 0x00ff) as u32;"), "src_toCan_eq"),
+    "ce-B4-flag-dropped": ("frame.rs", rep(FR, "        id |= (self.multi_frame_flag as u32) << 26;\n", ""), "src_toCan_eq"),
     # ---- event encoders
     "en-R1-vec-new": ("event/button.rs", rep(BU, "        let mut data = vec![];\n\n        for byte in u16::to_be_bytes(BUTTON_PRESSED_EVENT_CODE)", "        let mut data = Vec::new();\n\n        for byte in u16::to_be_bytes(BUTTON_PRESSED_EVENT_CODE)"), None),
     "en-B1-error-flag-set": ("event/button.rs", rep(BU, "            is_error: false,\n            device_address: self.receiver_address,", "            is_error: true,\n            device_address: self.receiver_address,"), "src_encode_buttonPressed"),
